@@ -316,6 +316,10 @@ KINDS = [
 ]
 
 
+# number of concrete variants of a message class (the model sees the class only)
+VARIANTS = {'open': 2, 'openLow': 2, 'operational': 4, 'notification': 3, 'tooLong': 5, 'badLength': 4, 'unknownType': 5, 'badMarker': 4, 'update': 3}
+
+
 class Remote:
     """Bytes of every message class, built from a mirrored neighbor (real OPEN through the real encoder)."""
 
@@ -333,7 +337,42 @@ class Remote:
         b[19 + off : 19 + off + len(val)] = val
         return bytes(b)
 
-    def bytes_of(self, kind: str) -> bytes:
+    def with_hostname(self, open_bytes: bytes, host: bytes, domain: bytes) -> bytes:
+        """The OPEN with one more optional parameter: capability 73 (hostname) carrying `host` / `domain`."""
+        body = bytearray(open_bytes[19:])
+        cap = bytes([73, 2 + len(host) + len(domain), len(host)]) + host + bytes([len(domain)]) + domain
+        param = bytes([2, len(cap)]) + cap
+        body[9] += len(param)
+        return frame(1, bytes(body) + param)
+
+    def bytes_of(self, kind: str, variant: int = 0) -> bytes:
+        """`variant` > 0: another member of the same message class (same model event): other
+        out-of-range values, peer-chosen text that is not ASCII / not UTF-8."""
+        v = VARIANTS.get(kind, 1)
+        variant = variant % v if v else 0
+        if variant:
+            if kind in ('open', 'openLow'):
+                base = self.open_hi if kind == 'open' else self.open_lo
+                # valid UTF-8 that is not ASCII (a name that is not UTF-8 at all makes the OPEN malformed: 2/0, another class)
+                host, dom = [(b'z\xc3\xbcrich-rr1', b'ex\xc3\xa4mple.net')][variant - 1]
+                return self.with_hostname(base, host, dom)
+            if kind == 'operational':
+                adv = ['maintenance \u00e0 22h'.encode(), b'\xff\xfe\x80 reboot', '\u8ba1\u5212\u7ef4\u62a4'.encode()][variant - 1]
+                return frame(6, bytes([0, 1 + (variant % 2)]) + struct.pack('!H', 3 + len(adv)) + bytes([0, 1, 1]) + adv)
+            if kind == 'notification':
+                txt = ['Wartung f\u00fcr 2h'.encode(), b'\xff\xfe\x80\x81'][variant - 1]
+                return frame(3, bytes([6, 2, len(txt)]) + txt)
+            if kind == 'tooLong':
+                return frame(2, b'', length=[0x1080, 0x9000, 0xFFFF, 0x8000][variant - 1])
+            if kind == 'badLength':
+                return frame(4, b'', length=[0, 17, 1][variant - 1])
+            if kind == 'unknownType':
+                return frame([0, 255, 7, 128][variant - 1], b'')
+            if kind == 'badMarker':
+                return frame(4, b'', marker=[b'\x00' + b'\xff' * 15, bytes(16), b'\xff' * 8 + b'\xfe' + b'\xff' * 7][variant - 1])
+            if kind == 'update':
+                unk = bytes([0xC0, 99, 4, 0xff, 0xfe, 0x80, 0x00])  # unknown optional transitive attribute, bytes that are no text
+                return frame(2, update_body(ORIGIN + ASPATH + NEXTHOP + unk, NLRI)) if variant == 1 else frame(2, update_body(b'', b'', withdrawn=NLRI))
         if kind == 'open':
             return self.open_hi
         if kind == 'openLow':
@@ -487,6 +526,7 @@ class SessionRig:
         self.closed_at: dict[int, float] = {}
         self.api: list[tuple[float, str]] = []
         self.task: asyncio.Task | None = None
+        self.crashed = False
         self.remote = Remote(self.cfg['peer_hold'])
         self._env_saved: dict = {}
         self._build_peer()
@@ -732,10 +772,10 @@ class SessionRig:
                 self.emit(f'reject {cid}')
             del inc, res
         elif k == 'recv':
-            _, cid, kind = ev
+            cid, kind = ev[1], ev[2]
             if self.remote_open.get(cid):
                 try:
-                    self.remote_socks[cid].sendall(self.remote.bytes_of(kind))
+                    self.remote_socks[cid].sendall(self.remote.bytes_of(kind, int(ev[3]) if len(ev) > 3 else 0))
                     self.sent_ok = True
                 except OSError:
                     pass
@@ -802,6 +842,12 @@ class SessionRig:
             raise RigError(f'unknown event {ev}')
         await self.settle()
         self.api_errors_at.append(self.api_errors)
+        if self.task is not None and self.task.done() and not self.crashed and not self.task.cancelled():
+            exc = self.task.exception()
+            if exc is not None:
+                # Peer.run() is gone for good: nothing will ever close the transport or restart the session
+                self.crashed = True
+                self.emit(f'crash {type(exc).__name__}')
         return list(self.bucket)
 
     # -- whole scripts --------------------------------------------------------------------------
@@ -912,6 +958,8 @@ def model_cfg_line(cfg: dict | None) -> str:
 def model_line(ev: list) -> str:
     if ev[0] == 'announce':
         return 'session ev announce'
+    if ev[0] == 'recv':
+        ev = ev[:3]  # the variant of the message class is the rig's business
     return 'session ev ' + ' '.join(str(x) for x in ev)
 
 
@@ -1051,6 +1099,22 @@ def systematic_scripts() -> list[tuple[list[list], dict, str]]:
         out.append((est + [['holdExpired'], ['start']], {'hold': hold, 'peer_hold': peer_hold}, f'hold/{hold}-{peer_hold}'))
         out.append((STAGES['openconfirm'][0] + [['holdExpired'], ['recv', 1, 'keepalive'], ['tick']], {'hold': hold, 'peer_hold': peer_hold}, f'hold-openconfirm/{hold}-{peer_hold}'))
     out.append((est + [['recv', 1, 'keepalive'], ['recv', 1, 'keepalive'], ['start']], {'hold': 0}, 'hold0/two-keepalives'))
+    # every variant of every message class (other out-of-range values, peer-chosen text that is not
+    # ASCII / not UTF-8) at the three reading stages; an OPEN variant also as THE OPEN of the session,
+    # followed by what makes the speaker talk about that peer (second OPEN, KEEPALIVE, silence)
+    for stage in ('opensent', 'openconfirm', 'established'):
+        prefix, c = STAGES[stage]
+        for k, n in VARIANTS.items():
+            for v in range(1, n):
+                for api in ({}, {'api_forward': True}):
+                    out.append((prefix + [['recv', c, k, v]] + TAIL, dict(api, routes=1), f'variant{"-fwd" if api else ""}/{stage}/{k}#{v}'))
+    for v in range(1, VARIANTS['open']):
+        for k in ('open', 'openLow'):
+            base = [['start'], ['connectOk'], ['recv', 1, k, v]]
+            for tail in ([['recv', 1, 'open']], [['recv', 1, 'update']], [['recv', 1, 'keepalive'], ['recv', 1, 'open', v]], [['recv', 1, 'keepalive'], ['tick'], ['recv', 1, 'openAs']],
+                         [['recv', 1, 'keepalive'], ['recv', 1, 'operational', 1]], [['holdExpired']], [['recv', 1, 'keepalive'], ['tick'], ['teardown', 2], ['tick']]):
+                for api in ({}, {'api_forward': True}):
+                    out.append((base + tail + TAIL, dict(api, routes=1, hold=9), f'open-variant{"-fwd" if api else ""}/{k}#{v}/{tail[-1][0]}'))
     return out
 
 
@@ -1086,7 +1150,10 @@ def random_script(rng: Any, drv: Any, maxlen: int, fault_weight: float, cfg: dic
         pc = st['pc']
 
         def recv(kinds: list[str]) -> list:
-            return ['recv', c, rng.choice(kinds)]
+            k = rng.choice(kinds)
+            if k in VARIANTS and rng.random() < 0.5:
+                return ['recv', c, k, rng.randrange(1, VARIANTS[k])]
+            return ['recv', c, k]
 
         fault = lambda: recv(FAULT_KINDS + SEM_KINDS + ['operational', 'notification', 'notifBadLen'])  # noqa: E731
         if not died and rng.random() < 0.04:
@@ -1181,6 +1248,8 @@ def oracle_c05(script: list[list], res: dict, rfc_table: set) -> list[tuple[str,
                     bad.append(('label', f'write labelled {st} while the trace says {state}'))
             elif w[0] == 'close':
                 closed.add(int(w[1]))
+            elif w[0] == 'crash':
+                bad.append(('wedged', f'Peer.run() died with {w[1]} in state {state}: the session is stuck there, its transport is never closed'))
             elif w[0] == 'up':
                 if up:
                     bad.append(('up-up', 'API "up" twice without a "down" in between'))
@@ -1191,6 +1260,11 @@ def oracle_c05(script: list[list], res: dict, rfc_table: set) -> list[tuple[str,
             still = sorted(c for c in open_sent if c not in closed)
             if still:
                 bad.append(('leave-without-close', f'left a connected state with connection(s) {still} still open'))
+        # RFC 4271 8.2.2: whoever sends a NOTIFICATION releases the resources and goes to Idle
+        for it in bucket:
+            w = it.split(' ')
+            if w[0] == 'send' and w[2] == 'NOTIFICATION' and w[-1] in CONNECTED and int(w[1]) in open_sent and int(w[1]) not in closed:
+                bad.append(('notification-without-close', f'NOTIFICATION written on connection {w[1]} in {w[-1]} and the connection is not closed'))
     return bad
 
 
@@ -1382,6 +1456,12 @@ def shrink_script(script: list[list], cfg: dict, still_bad: Any) -> tuple[list[l
                     break
                 n = min(n * 2, len(cur))
         for i, ev in enumerate(cur):
+            if ev[0] == 'recv' and len(ev) > 3:
+                cand = [list(e) for e in cur]
+                cand[i] = cand[i][:3]
+                if still_bad(cand, cfg):
+                    cur = cand
+                    ev = cur[i]
             if ev[0] == 'recv' and ev[2] in SIMPLER:
                 cand = [list(e) for e in cur]
                 cand[i][2] = SIMPLER[ev[2]]
